@@ -82,8 +82,9 @@ class GraphGen:
   children among leaves and previously created nodes (sharing), so the result is acyclic."""
 
   def __init__(self, r, *, size=10, positional=True, tags=False, partials=False, custom=True,
-               buildable_types=(fdl.Config,), leaf_values=None, nt_bias=0.0):
+               buildable_types=(fdl.Config,), leaf_values=None, nt_bias=0.0, classes=0.0):
     self.nt_bias = nt_bias
+    self.classes = classes
     self.r = r
     self.size = size
     self.positional = positional
@@ -157,6 +158,10 @@ class GraphGen:
     sig_i = r.randrange(len(KW_SIGS))
     sig = KW_SIGS[sig_i]
     fn = node_fn(sig_i, r.randrange(len(FN_NAMES)))
+    if self.classes and r.random() < self.classes:
+      sig_i = 1
+      sig = KW_SIGS[1]
+      fn = r.choice(targets.CLASSES)
     btype = r.choice(self.buildable_types)
     args, kwargs = [], {}
     pos = [p for p in sig if p[1] in ('po', 'pk')]
@@ -185,7 +190,10 @@ class GraphGen:
       keys = list(cfg.__arguments__.keys())
       if keys:
         k = r.choice(keys)
-        fdl.add_tag(cfg, k, r.choice(targets.TAGS))
+        try:
+          fdl.add_tag(cfg, k, r.choice(targets.TAGS))
+        except (AttributeError, IndexError):
+          pass      # a **kwargs entry named like a positional parameter cannot be tagged by name
     return cfg
 
   def generate(self):
@@ -396,6 +404,14 @@ class Encoder:
       obj['bk'] = type(x).__name__
       obj['fn'] = callable_name(x.__fn_or_cls__)
       obj['sig'] = sig_of(x)
+      # default objects of the parameters (identity matters: a default may be shared)
+      import inspect as _inspect
+      dfl = []
+      for i, prm in enumerate(x.__signature_info__.parameters.values()):
+        if prm.default is not prm.empty and prm.kind not in (prm.VAR_POSITIONAL, prm.VAR_KEYWORD):
+          pe = ['i', i] if prm.kind == prm.POSITIONAL_ONLY else ['a', prm.name]
+          dfl.append([pe, self.val(prm.default)])
+      obj['dfl'] = dfl
       obj['tags'] = sorted(([k, sorted(targets.tag_no(t) for t in ts)]
                             for k, ts in x.__argument_tags__.items() if ts), key=repr)
     elif kind in ('ntuple', 'custom'):
